@@ -34,6 +34,7 @@ def handle (args : List String) : String :=
   | "synth" :: _ => "skip\tx"
   | "equate" :: _ => "skip\tx"
   | "merge" :: _ => "skip\tx"
+  | "dups" :: _ => "skip\tx"
   | _ => "bad-op\tn/a"
 
 end Driver.C12
